@@ -4,6 +4,7 @@
 (*   PS  ptab, stab        the parameter tables of P and S (ids, kinds)    *)
 (*       names             the call-parameter ids of the loaded P@S model  *)
 (*       scale, background, vf, beta, ermode, dim                          *)
+(*       Pnojit            P alone with the orientation jitter removed     *)
 (*       Pout              P evaluated alone (call_Fq, selected mode):     *)
 (*                         <F>, <F^2>, R_eff, <V_shell>, form:shell ratio  *)
 (*       userReff          the user's radius_effective value               *)
@@ -43,6 +44,12 @@ ApplyPS(e) ==
         ELSE IF e.names # CombinedIds(P0, S0) THEN <<"combined-table", ToString(<<CombinedIds(P0, S0), e.names>>)>>
         ELSE IF e.refused # (beta /\ e.dim = "2d") THEN <<"refusal", e.error>>
         ELSE IF e.refused THEN <<>>
+        \* orientation jitter turns the particle without resizing it: P's mean radius and volumes are those of the
+        \* same size distribution without jitter
+        ELSE IF ~(FNear(e.Pout.reff, e.Pnojit.reff, "1e-12", "0.0") /\ FNear(e.Pout.vshell, e.Pnojit.vshell, "1e-12", "0.0")
+                  /\ FNear(e.Pout.ratio, e.Pnojit.ratio, "1e-12", "0.0")) THEN
+             <<"jitter-changes-radius-or-volume", ToString(<<"with jitter", e.Pout.reff, e.Pout.vshell, e.Pout.ratio,
+                                                              "without", e.Pnojit.reff, e.Pnojit.vshell, e.Pnojit.ratio>>)>>
         ELSE IF ~FBits(e.Sin.reff, wantReff) THEN <<"harness-S-radius", ToString(<<wantReff, e.Sin.reff>>)>>
         ELSE IF ~FBits(e.Sin.vf, wantVf) THEN <<"harness-S-volfraction", ToString(<<wantVf, e.Sin.vf>>)>>
         ELSE IF ~FVecNear(e.out, I, RTol, "0.0") THEN <<"product-formula", ToString(<<"expected", I, "got", e.out>>)>>
